@@ -33,11 +33,11 @@ Definition idxs {A} (l : list A) : list N := layers (length l).
 
 (* ====================================================================== MinGenSet *)
 Record mgs_inst := {
-  m_numbers : list Q;                 (* self.numbers after __init__, in the order the object holds them *)
-  m_total : Q;
-  m_int : bool;                       (* weight_type == int *)
-  m_mult : nat;                       (* max_multiplicity *)
-  m_parts : option (list (list Q)) }. (* partition_constraints (None = not given) *)
+  mg_numbers : list Q;                 (* self.numbers after __init__, in the order the object holds them *)
+  mg_total : Q;
+  mg_int : bool;                       (* weight_type == int *)
+  mg_mult : nat;                       (* max_multiplicity *)
+  mg_parts : option (list (list Q)) }. (* partition_constraints (None = not given) *)
 
 (* ---- __init__ : removal of total / zero / complements / duplicates (remove_complement_values) ---- *)
 Definition qmem (x : Q) (l : list Q) : bool := existsb (Qeq_bool x) l.
@@ -64,11 +64,11 @@ Definition mgs_preprocess (remove_complements : bool) (numbers : list Q) (total 
   else numbers.
 
 (* ---- _create_solver(k) ---- *)
-Definition mult1 (I : mgs_inst) : bool := (m_mult I =? 1)%nat.
-Definition x_ub (I : mgs_inst) : Q := if mult1 I then 1%Q else inject_Z (Z.of_nat (m_mult I)).
-Definition nbits (I : mgs_inst) : nat := num_bits (m_total I).
+Definition mult1 (I : mgs_inst) : bool := (mg_mult I =? 1)%nat.
+Definition x_ub (I : mgs_inst) : Q := if mult1 I then 1%Q else inject_Z (Z.of_nat (mg_mult I)).
+Definition nbits (I : mgs_inst) : nat := num_bits (mg_total I).
 
-Definition parts_of (I : mgs_inst) : list (list Q) := match m_parts I with None => [] | Some cs => cs end.
+Definition parts_of (I : mgs_inst) : list (list Q) := match mg_parts I with None => [] | Some cs => cs end.
 (* t = max(len(c) for c in partition_constraints) *)
 Definition parts_t (I : mgs_inst) : nat := fold_right Nat.max 0%nat (map (@length Q) (parts_of I)).
 
@@ -79,32 +79,32 @@ Definition part_cols (I : mgs_inst) (k : nat) : list col :=
   match parts_of I with
   | [] => []
   | _ => map (fun t => bincol (Yv (fst (fst t)) (snd (fst t)) (snd t))) (ijc I k) ++
-         map (fun t => qcol (PiY (fst (fst t)) (snd (fst t)) (snd t)) 0%Q (m_total I) (m_int I)) (ijc I k)
+         map (fun t => qcol (PiY (fst (fst t)) (snd (fst t)) (snd t)) 0%Q (mg_total I) (mg_int I)) (ijc I k)
   end.
 
 Definition part_rows (I : mgs_inst) (k : nat) : list row :=
   match parts_of I with
   | [] => []
   | _ =>
-    flat_map (fun t => let '(i, j, c) := t in mcc_rows (Yv i j c) (Gen i) (PiY i j c) 0%Q (m_total I)) (ijc I k) ++
+    flat_map (fun t => let '(i, j, c) := t in mcc_rows (Yv i j c) (Gen i) (PiY i j c) 0%Q (mg_total I)) (ijc I k) ++
     flat_map (fun i => map (fun c => mkrow (map (fun j => (Yv i j c, 1%Q)) (layers (parts_t I))) SEq 1%Q) (idxs (parts_of I))) (layers k) ++
     flat_map (fun cc => map (fun jv => mkrow (map (fun i => (PiY i (fst jv) (fst cc), 1%Q)) (layers k)) SEq (snd jv))
                             (zipn 0 (snd cc))) (zipn 0 (parts_of I))
   end.
 
 Definition mgs_cols (I : mgs_inst) (k : nat) : list col :=
-  map (fun i => qcol (Gen i) 0%Q (m_total I) (m_int I)) (layers k) ++
-  flat_map (fun i => map (fun j => qcol (Xv i j) 0%Q (x_ub I) true) (idxs (m_numbers I))) (layers k) ++
-  flat_map (fun i => map (fun j => qcol (Pij i j) 0%Q (m_total I) (m_int I)) (idxs (m_numbers I))) (layers k) ++
+  map (fun i => qcol (Gen i) 0%Q (mg_total I) (mg_int I)) (layers k) ++
+  flat_map (fun i => map (fun j => qcol (Xv i j) 0%Q (x_ub I) true) (idxs (mg_numbers I))) (layers k) ++
+  flat_map (fun i => map (fun j => qcol (Pij i j) 0%Q (mg_total I) (mg_int I)) (idxs (mg_numbers I))) (layers k) ++
   (if mult1 I then []
-   else flat_map (fun j => flat_map (fun i => intprod_cols (Pij i j) 0%Q (m_total I) (nbits I)) (layers k)) (idxs (m_numbers I))) ++
+   else flat_map (fun j => flat_map (fun i => intprod_cols (Pij i j) 0%Q (mg_total I) (nbits I)) (layers k)) (idxs (mg_numbers I))) ++
   part_cols I k.
 
 Definition prod_rows (I : mgs_inst) (i j : N) : list row :=
-  if mult1 I then mcc_rows (Xv i j) (Gen i) (Pij i j) 0%Q (m_total I)
-  else intprod_rows (Xv i j) (Gen i) (Pij i j) 0%Q (m_total I) (nbits I).
+  if mult1 I then mcc_rows (Xv i j) (Gen i) (Pij i j) 0%Q (mg_total I)
+  else intprod_rows (Xv i j) (Gen i) (Pij i j) 0%Q (mg_total I) (nbits I).
 
-Definition row_total (I : mgs_inst) (k : nat) : row := mkrow (map (fun i => (Gen i, 1%Q)) (layers k)) SEq (m_total I).
+Definition row_total (I : mgs_inst) (k : nat) : row := mkrow (map (fun i => (Gen i, 1%Q)) (layers k)) SEq (mg_total I).
 Definition row_sum_pi (k : nat) (ja : N * Q) : row := mkrow (map (fun i => (Pij i (fst ja), 1%Q)) (layers k)) SEq (snd ja).
 (* _encode_symmetry_breaking: for i in range(k - 2): gen[i] <= gen[i+1] *)
 Definition sym_rows (k : nat) : list row :=
@@ -112,52 +112,63 @@ Definition sym_rows (k : nat) : list row :=
 
 Definition mgs_rows (I : mgs_inst) (k : nat) : list row :=
   [row_total I k] ++
-  flat_map (fun ja => flat_map (fun i => prod_rows I i (fst ja)) (layers k) ++ [row_sum_pi k ja]) (zipn 0 (m_numbers I)) ++
+  flat_map (fun ja => flat_map (fun i => prod_rows I i (fst ja)) (layers k) ++ [row_sum_pi k ja]) (zipn 0 (mg_numbers I)) ++
   sym_rows k ++
   part_rows I k.
 
 Definition encode_mgs (I : mgs_inst) (k : nat) : milp :=
   {| cols := mgs_cols I k; rows := mgs_rows I k; obj := []; maximize := false |}.
 
-(* ---- solve(): for k in range(lowerbound, max(lowerbound + 1, len(initial_numbers))) ----
-   [status k] = MOptimal iff the model for k ended kOptimal; EVERY other status moves on to k + 1.
-   Result: the ks tried in order, and Some k at the first kOptimal / None when the range is exhausted. *)
-Definition mgs_range (lowerbound n_initial : nat) : list nat :=
-  seq lowerbound (Nat.max (lowerbound + 1) n_initial - lowerbound).
+(* ---- solve(): for k in range(lowerbound, max(lowerbound + 1, len(initial_numbers) + 2)) ----
+   kOptimal at k: answer k.  kInfeasible: go on with k + 1.  Any other status (time limit, unknown,
+   error ...): stop, unsolved.  Result: the ks tried in order, and Some k / None. *)
+Inductive mstatus := MgOptimal | MgInfeasible | MgOther.
+Definition is_opt (s : mstatus) : bool := match s with MgOptimal => true | _ => false end.
 
-Inductive mstatus := MOptimal | MInfeasible | MOther.   (* MOther: time limit, unknown, error ... *)
-Definition is_opt (s : mstatus) : bool := match s with MOptimal => true | _ => false end.
+Definition mgs_range (lowerbound n_initial : nat) : list nat :=
+  seq lowerbound (Nat.max (lowerbound + 1) (n_initial + 2) - lowerbound).
 
 Fixpoint mgs_loop_on (status : nat -> mstatus) (ks : list nat) : list nat * option nat :=
   match ks with
   | [] => ([], None)
-  | k :: r => if is_opt (status k) then ([k], Some k)
-              else let '(tried, res) := mgs_loop_on status r in (k :: tried, res)
+  | k :: r => match status k with
+              | MgOptimal => ([k], Some k)
+              | MgInfeasible => let '(tried, res) := mgs_loop_on status r in (k :: tried, res)
+              | MgOther => ([k], None)
+              end
   end.
 
 Definition mgs_loop (status : nat -> mstatus) (lowerbound n_initial : nat) : list nat * option nat :=
   mgs_loop_on status (mgs_range lowerbound n_initial).
 
-(* the specification's range (without partition constraints a generating set of size len(numbers) + 1
-   always exists: the differences of the sorted numbers and total; so the range must reach it) -- used to state what the loop should do *)
-Definition mgs_range_spec (lowerbound n_initial : nat) : list nat :=
-  seq lowerbound (Nat.max (lowerbound + 1) (n_initial + 2) - lowerbound).
+(* the loop as it was before the fixes 03febc7 / 2966290 (kept for the _refuted witnesses of the old
+   behaviour): range(lowerbound, max(lowerbound + 1, len(initial_numbers))), every non-optimal status moves on *)
+Definition mgs_range_old (lowerbound n_initial : nat) : list nat :=
+  seq lowerbound (Nat.max (lowerbound + 1) n_initial - lowerbound).
+Fixpoint mgs_loop_on_old (status : nat -> mstatus) (ks : list nat) : list nat * option nat :=
+  match ks with
+  | [] => ([], None)
+  | k :: r => if is_opt (status k) then ([k], Some k)
+              else let '(tried, res) := mgs_loop_on_old status r in (k :: tried, res)
+  end.
+Definition mgs_loop_old (status : nat -> mstatus) (lowerbound n_initial : nat) : list nat * option nat :=
+  mgs_loop_on_old status (mgs_range_old lowerbound n_initial).
 
 (* self.weight_type(value): int() truncates toward zero, float() is the identity *)
 Definition py_int (q : Q) : Z := Z.quot (Qnum q) (Zpos (Qden q)).
 
 (* ====================================================================== MinSetCover *)
 Record msc_inst := {
-  s_universe : list N;
-  s_subsets : list (list N);
-  s_weights : option (list Q) }.       (* None = the default subset_weights=None *)
+  sc_universe : list N;
+  sc_subsets : list (list N);
+  sc_weights : option (list Q) }.       (* None = the default subset_weights=None *)
 
 Definition nmem (x : N) (l : list N) : bool := existsb (N.eqb x) l.
 
-Definition msc_cols (I : msc_inst) : list col := map (fun i => bincol (Sub i)) (idxs (s_subsets I)).
+Definition msc_cols (I : msc_inst) : list col := map (fun i => bincol (Sub i)) (idxs (sc_subsets I)).
 Definition cover_row (I : msc_inst) (el : N) : row :=
-  mkrow (map (fun iS => (Sub (fst iS), 1%Q)) (filter (fun iS => nmem el (snd iS)) (zipn 0 (s_subsets I)))) SGe 1%Q.
-Definition msc_rows (I : msc_inst) : list row := map (cover_row I) (s_universe I).
+  mkrow (map (fun iS => (Sub (fst iS), 1%Q)) (filter (fun iS => nmem el (snd iS)) (zipn 0 (sc_subsets I)))) SGe 1%Q.
+Definition msc_rows (I : msc_inst) : list row := map (cover_row I) (sc_universe I).
 
 (* objective: subset_weights[i] * subset_vars[i] for i in range(len(subsets));
    None -> TypeError, too short -> IndexError: no model is built *)
@@ -171,44 +182,44 @@ Fixpoint msc_obj (i : nat) (subsets : list (list N)) (ws : list Q) : option lin 
   end.
 
 Definition encode_msc (I : msc_inst) : option milp :=
-  match s_weights I with
+  match sc_weights I with
   | None => None
   | Some ws => option_map (fun o => {| cols := msc_cols I; rows := msc_rows I; obj := o; maximize := false |})
-                          (msc_obj 0 (s_subsets I) ws)
+                          (msc_obj 0 (sc_subsets I) ws)
   end.
 
 (* ====================================================================== MinErrorFlow *)
 Record mef_inst := {
-  e_nodes : list node;                (* list(self.G.nodes()) : the s-t augmented graph when acyclic *)
-  e_edges : list edge;                (* list(self.G.edges()) *)
-  e_flow : list (edge * Q);           (* edges carrying the flow attribute *)
-  e_ignore : list edge;               (* self.edges_to_ignore (incl. source/sink edges and scale-0 edges) *)
-  e_scale : list (edge * Q);          (* self.edge_error_scaling *)
-  e_lambda : Q;                       (* sparsity_lambda *)
-  e_src : option node;                (* self.G.source when acyclic *)
-  e_int : bool }.
+  mef_nodes : list node;                (* list(self.G.nodes()) : the s-t augmented graph when acyclic *)
+  mef_edges : list edge;                (* list(self.G.edges()) *)
+  mef_flow : list (edge * Q);           (* edges carrying the flow attribute *)
+  mef_ignore : list edge;               (* self.edges_to_ignore (incl. source/sink edges and scale-0 edges) *)
+  mef_scale : list (edge * Q);          (* self.edge_error_scaling *)
+  mef_lambda : Q;                       (* sparsity_lambda *)
+  mef_src : option node;                (* self.G.source when acyclic *)
+  mef_int : bool }.
 
-Definition in_edges (E : list edge) (v : node) : list edge := filter (fun e => (snd e =? v)%N) E.
-Definition has_flow (I : mef_inst) (e : edge) : bool := existsb (fun p => edge_eqb (fst p) e) (e_flow I).
-Definition fval (I : mef_inst) (e : edge) : Q := lookup_q e (e_flow I) 0%Q.
-Definition ignored (I : mef_inst) (e : edge) : bool := mem_edge e (e_ignore I).
-Definition scale_of (I : mef_inst) (e : edge) : Q := lookup_q e (e_scale I) 1%Q.
+Definition mef_in_edges (E : list edge) (v : node) : list edge := filter (fun e => (snd e =? v)%N) E.
+Definition has_flow (I : mef_inst) (e : edge) : bool := existsb (fun p => edge_eqb (fst p) e) (mef_flow I).
+Definition fval (I : mef_inst) (e : edge) : Q := lookup_q e (mef_flow I) 0%Q.
+Definition ignored (I : mef_inst) (e : edge) : bool := mem_edge e (mef_ignore I).
+Definition scale_of (I : mef_inst) (e : edge) : Q := lookup_q e (mef_scale I) 1%Q.
 
 (* a non-ignored edge without the attribute makes _encode_flow raise ValueError *)
-Definition mef_ok (I : mef_inst) : bool := forallb (fun e => ignored I e || has_flow I e) (e_edges I).
+Definition mef_ok (I : mef_inst) : bool := forallb (fun e => ignored I e || has_flow I e) (mef_edges I).
 
 (* w_max = max(G[u][v].get(flow_attr, 0) for all edges); ub = w_max * number_of_edges *)
 Definition mef_wmax (I : mef_inst) : Q :=
-  match map (fval I) (e_edges I) with [] => 0%Q | x :: r => list_max x r end.
-Definition mef_ub (I : mef_inst) : Q := (mef_wmax I * inject_Z (Z.of_nat (length (e_edges I))))%Q.
+  match map (fval I) (mef_edges I) with [] => 0%Q | x :: r => list_max x r end.
+Definition mef_ub (I : mef_inst) : Q := (mef_wmax I * inject_Z (Z.of_nat (length (mef_edges I))))%Q.
 
 Definition conserved (I : mef_inst) (v : node) : bool :=
-  match in_edges (e_edges I) v, out_edges (e_edges I) v with
+  match mef_in_edges (mef_edges I) v, out_edges (mef_edges I) v with
   | [], _ => false | _, [] => false | _, _ => true
   end.
 
 Definition cons_row (I : mef_inst) (v : node) : row :=
-  mkrow (map (fun e => (Xe e, 1%Q)) (in_edges (e_edges I) v) ++ map (fun e => (Xe e, (- (1))%Q)) (out_edges (e_edges I) v)) SEq 0%Q.
+  mkrow (map (fun e => (Xe e, 1%Q)) (mef_in_edges (mef_edges I) v) ++ map (fun e => (Xe e, (- (1))%Q)) (out_edges (mef_edges I) v)) SEq 0%Q.
 
 Definition err_rows (I : mef_inst) (e : edge) : list row :=
   if ignored I e then [ mkrow [(Erre e, 1%Q)] SEq 0%Q ]
@@ -216,18 +227,18 @@ Definition err_rows (I : mef_inst) (e : edge) : list row :=
          mkrow [(Xe e, 1%Q); (Erre e, (- (1))%Q)] SLe (fval I e) ].
 
 Definition mef_cols (I : mef_inst) : list col :=
-  map (fun e => qcol (Xe e) 0%Q (mef_ub I) (e_int I)) (e_edges I) ++
-  map (fun e => qcol (Erre e) 0%Q (mef_ub I) (e_int I)) (e_edges I).
+  map (fun e => qcol (Xe e) 0%Q (mef_ub I) (mef_int I)) (mef_edges I) ++
+  map (fun e => qcol (Erre e) 0%Q (mef_ub I) (mef_int I)) (mef_edges I).
 
 Definition mef_rows (I : mef_inst) : list row :=
-  map (cons_row I) (filter (conserved I) (e_nodes I)) ++ flat_map (err_rows I) (e_edges I).
+  map (cons_row I) (filter (conserved I) (mef_nodes I)) ++ flat_map (err_rows I) (mef_edges I).
 
 (* sum of scaled errors of the non-ignored edges + (lambda * flow out of the source, if lambda > 0) *)
 Definition mef_obj (I : mef_inst) : lin :=
-  map (fun e => (Erre e, scale_of I e)) (filter (fun e => negb (ignored I e)) (e_edges I)) ++
-  (if Qlt_bool 0%Q (e_lambda I)
-   then match e_src I with
-        | Some s => map (fun e => (Xe e, e_lambda I)) (out_edges (e_edges I) s)
+  map (fun e => (Erre e, scale_of I e)) (filter (fun e => negb (ignored I e)) (mef_edges I)) ++
+  (if Qlt_bool 0%Q (mef_lambda I)
+   then match mef_src I with
+        | Some s => map (fun e => (Xe e, mef_lambda I)) (out_edges (mef_edges I) s)
         | None => []
         end
    else []).
@@ -239,7 +250,7 @@ Definition encode_mef (I : mef_inst) : milp :=
    subset = edges of the caller's graph, nvals = number of distinct values of the first optimum,
    budget row: first objective <= (1 + eps) * opt *)
 Definition mef2_cols (I : mef_inst) (subset : list edge) (nvals : nat) : list col :=
-  map (fun i => qcol (FV i) 0%Q (mef_ub I) (e_int I)) (layers nvals) ++
+  map (fun i => qcol (FV i) 0%Q (mef_ub I) (mef_int I)) (layers nvals) ++
   map (fun i => bincol (FVU i)) (layers nvals) ++
   flat_map (fun e => map (fun i => bincol (FVM e i)) (layers nvals)) subset.
 
@@ -268,11 +279,11 @@ Definition py_round_half_even (q : Q) : Z :=
   else if Z.even fl then fl else (fl + 1)%Z.
 
 Definition corrected_value (I : mef_inst) (x : edge -> Q) (e : edge) : Q :=
-  if e_int I then inject_Z (py_round_half_even (x e)) else x e.
+  if mef_int I then inject_Z (py_round_half_even (x e)) else x e.
 
 Definition corrected_graph (I : mef_inst) (nodes : list node) (edges : list edge) (x : edge -> Q)
   : list node * list (edge * option Q) :=
   (nodes, map (fun e => (e, if has_flow I e then Some (corrected_value I x e) else None)) edges).
 
 (* reported "error" = sum of all error variables; "objective_value" = solver objective *)
-Definition reported_error (I : mef_inst) (a : var -> Q) : Q := sumq (fun e => a (Erre e)) (e_edges I).
+Definition reported_error (I : mef_inst) (a : var -> Q) : Q := sumq (fun e => a (Erre e)) (mef_edges I).
